@@ -136,11 +136,14 @@ func (s *sliceMachine) Discard(ctx context.Context, task *Task) {
 		return
 	}
 	// s exclusively owns task's state during this time, so this does not race
-	// with anything else.
-	task.Set(TaskLost)
+	// with anything else. The task is marked lost only after the worker has
+	// discarded it: otherwise an evaluation could resubmit the task, find it
+	// still complete on the worker, and then have its output discarded from
+	// under it, leaving a task that is considered complete without any output.
 	if err := s.RetryCall(ctx, "Worker.Discard", task.Name, nil); err != nil {
 		log.Error.Printf("error discarding %v: %v", task, err)
 	}
+	task.Set(TaskLost)
 }
 
 // Go manages a sliceMachine: it polls stats at regular intervals and
